@@ -2,19 +2,35 @@
    for closed, checked programs run in the asynchronous polarized mode (the CLI's default). *)
 From stdpp Require Import gmap strings.
 Require Import Grits.Base Grits.STypes Grits.Forms Grits.Expand Grits.Tc Grits.TcTop Grits.Runtime Grits.Cli
-               Grits.spec.Topo Grits.proofs.RtTheorems Grits.proofs.RtTcSyn Grits.proofs.RtTheoremsTc Grits.proofs.CliProofs.
+               Grits.spec.Topo Grits.proofs.RtSafety Grits.proofs.RtTheorems Grits.proofs.RtTcSyn Grits.proofs.RtTheoremsTc Grits.proofs.CliProofs.
 
 Lemma cli_checked_async_exits_zero pick fuel f s p p' :
   parse_string s = POk p -> typecheck_on f = true -> typecheck p = Accept p' ->
   run_mode f = Some Async ->
-  in_fragment p' -> rt_syn_ok p = true ->
+  in_fragment p' ->
   topo_runs p' ->
   co_exit (cli pick fuel f (Some s)) = 0 /\ co_trace (cli pick fuel f (Some s)) = false /\ co_diags (cli pick fuel f (Some s)) = 0.
 Proof.
-  intros Hp Ht Hc Hm Hf Hs Htopo. unfold cli. rewrite Hp, Ht, Hc.
+  intros Hp Ht Hc Hm Hf Htopo. unfold cli. rewrite Hp, Ht, Hc.
   destruct (execute_on f); [|cbn; auto].
   rewrite Hm. unfold cli_run.
-  pose proof (safety_parsed_partial s p p' Async Hp Hc Hf Hs Htopo eq_refl fuel pick) as Hsafe.
+  pose proof (safety_parsed_partial s p p' Async Hp Hc Hf Htopo eq_refl fuel pick) as Hsafe.
   destruct (exec_run fuel pick Async (p_types p') (p_funs p') (init_config p')) as [c|c who e|c] eqn:E; cbn; auto.
+  exfalso. exact (Hsafe c who e eq_refl).
+Qed.
+
+(* the same for whichever mode the flags select (--sync is the non-polarized mode), by C01's theorem for the three modes *)
+Lemma cli_checked_exits_zero pick fuel f s p p' md :
+  parse_string s = POk p -> typecheck_on f = true -> typecheck p = Accept p' ->
+  run_mode f = Some md ->
+  in_fragment p' ->
+  (forall c, RtSafety.reachable (p_types p') (p_funs p') md (init_config p') c -> Topo c) ->
+  co_exit (cli pick fuel f (Some s)) = 0 /\ co_trace (cli pick fuel f (Some s)) = false /\ co_diags (cli pick fuel f (Some s)) = 0.
+Proof.
+  intros Hp Ht Hc Hm Hf Htopo. unfold cli. rewrite Hp, Ht, Hc.
+  destruct (execute_on f); [|cbn; auto].
+  rewrite Hm. unfold cli_run.
+  pose proof (safety_all_modes_parsed_partial s p p' md Hp Hc Hf Htopo fuel pick) as Hsafe.
+  destruct (exec_run fuel pick md (p_types p') (p_funs p') (init_config p')) as [c|c who e|c] eqn:E; cbn; auto.
   exfalso. exact (Hsafe c who e eq_refl).
 Qed.
